@@ -35,6 +35,8 @@ struct Task {
     repo: usize,
     peer: usize,
     finished: bool,
+    /// the connection the task was started on is gone (Wire::worker_result drops such results)
+    stale: bool,
 }
 
 struct World {
@@ -193,6 +195,10 @@ impl World {
                     info = json!({"skipped": true});
                     return;
                 };
+                // the connection is gone: results of its tasks belong to an earlier connection from now on
+                for t in self.tasks.iter_mut().filter(|t| t.peer == p) {
+                    t.stale = true;
+                }
                 self.alice.service.disconnected(nid, link, &DisconnectReason::Command);
             }
             "stale_disconnect" => {
@@ -236,8 +242,9 @@ impl World {
                 }
                 self.tasks[g - 1].finished = true;
                 let (repo, peer) = (self.tasks[g - 1].repo, self.tasks[g - 1].peer);
-                // Wire::worker_result: `peers.lookup_mut(&nid)` must find a connected peer.
-                let forwarded = self.links.contains_key(&peer);
+                // Wire::worker_result: `peers.lookup_mut(&nid)` must find a connected peer, and it must be the
+                // connection the task was started on.
+                let forwarded = self.links.contains_key(&peer) && !self.tasks[g - 1].stale;
                 info = json!({"forwarded": forwarded, "repo": repo, "peer": peer});
                 if forwarded {
                     let res = match result {
@@ -267,7 +274,7 @@ impl World {
                 Io::Fetch { rid, remote, .. } => {
                     let r = self.rids.iter().position(|x| *x == rid).unwrap() + 1;
                     let p = self.nids.iter().position(|x| *x == remote).unwrap();
-                    self.tasks.push(Task { repo: r, peer: p, finished: false });
+                    self.tasks.push(Task { repo: r, peer: p, finished: false, stale: false });
                     fetches.push(json!([self.tasks.len(), r, p]));
                 }
                 Io::Disconnect(nid, _) => disc.push(self.nids.iter().position(|x| *x == nid).unwrap()),
